@@ -248,22 +248,95 @@ Proof.
       destruct (Nat.eqb_spec oi ni); [congruence|]. rewrite Nat.eqb_refl. auto.
 Qed.
 
-(** [Short pre B], or just [B] when [pre] is empty *)
-Lemma has_opt_short (pre : key) B fl k' w :
-  has (if Nat.eqb (length pre) 0 then B else Short pre B fl) k' w <->
-  exists r, k' = pre ++ r /\ has B r w.
+Lemma prefix_len_diverge pre x y a b :
+  x <> y -> prefix_len (pre ++ x :: a) (pre ++ y :: b) = length pre.
 Proof.
-  destruct pre as [|a pre]; cbn [length Nat.eqb].
+  intros Hne. induction pre as [|z pre IH]; cbn.
+  - destruct (Nat.eqb_spec x y); congruence.
+  - rewrite Nat.eqb_refl. auto.
+Qed.
+
+(** insert below a short node whose whole key matches *)
+Lemma insert_short_match f nk c fl r value :
+  nk <> [] ->
+  insert (S f) d (Short nk c fl) (nk ++ r) value =
+  rbind (insert f d c r value) (fun x =>
+    if fst x then Ok (true, Short nk (snd x) newflag) else Ok (false, Short nk c fl)).
+Proof.
+  intros Hne. destruct (nk ++ r) as [|k0 kt] eqn:E; [destruct nk; [congruence|discriminate]|].
+  rewrite insert_short_eq. cbv zeta. rewrite <- E.
+  rewrite prefix_len_app, Nat.eqb_refl, skipn_app_len. reflexivity.
+Qed.
+
+Definition branch2 (oi ni : nat) (Y X : node) : node :=
+  Full (set_nth ni X (set_nth oi Y empty_children)) newflag.
+
+Definition opt_short (pre : key) (B : node) : node :=
+  if Nat.eqb (length pre) 0 then B else Short pre B newflag.
+
+(** insert where the key leaves the short node's key after [pre] *)
+Lemma insert_short_diverge f pre oi rn' ni rk' c fl value :
+  oi <> ni ->
+  insert (S f) d (Short (pre ++ oi :: rn') c fl) (pre ++ ni :: rk') value =
+  Ok (true, opt_short pre (branch2 oi ni (leafn rn' c) (leafn rk' value))).
+Proof.
+  intros Hne. destruct (pre ++ ni :: rk') as [|k0 kt] eqn:E; [destruct pre; discriminate|].
+  rewrite insert_short_eq. cbv zeta. rewrite <- E.
+  rewrite prefix_len_diverge by auto.
+  assert (Hl : Nat.eqb (length pre) (length (pre ++ oi :: rn')) = false).
+  { apply Nat.eqb_neq. rewrite app_length. cbn. lia. }
+  rewrite Hl, !nth_error_app_mid, !skipn_app_mid, firstn_app_len.
+  unfold opt_short, branch2. destruct (Nat.eqb (length pre) 0); reflexivity.
+Qed.
+
+Lemma has_opt_short (pre : key) B k' w :
+  has (opt_short pre B) k' w <-> exists r, k' = pre ++ r /\ has B r w.
+Proof.
+  unfold opt_short. destruct pre as [|a pre]; cbn [length Nat.eqb].
   - split; [intros Hh; exists k'; auto | intros (r & -> & Hh); auto].
   - apply has_short.
 Qed.
 
-Lemma canon_opt_short (pre : key) cs g fl :
-  nibs pre -> canon (Full cs g) ->
-  canon (if Nat.eqb (length pre) 0 then Full cs g else Short pre (Full cs g) fl).
+Lemma canon_opt_short (pre : key) cs g :
+  nibs pre -> canon (Full cs g) -> canon (opt_short pre (Full cs g)).
 Proof.
-  intros Hp Hc. destruct pre as [|a pre]; cbn [length Nat.eqb]; auto.
+  intros Hp Hc. unfold opt_short. destruct pre as [|a pre]; cbn [length Nat.eqb]; auto.
   constructor; auto. discriminate.
+Qed.
+
+Lemma opt_short_ne pre cs g : opt_short pre (Full cs g) <> Empty.
+Proof. unfold opt_short. destruct (Nat.eqb (length pre) 0); discriminate. Qed.
+
+Lemma opt_short_not_full_eq pre cs g cs0 g0 :
+  Short pre cs0 g0 = opt_short pre (Full cs g) -> False \/ True.
+Proof. auto. Qed.
+
+Lemma diverge_has pre oi rn' ni rk' c v k' w :
+  oi <> ni -> oi <= 16 -> ni <= 16 ->
+  has (opt_short pre (branch2 oi ni (leafn rn' c) (leafn rk' (Value v)))) k' w <->
+  (k' = pre ++ ni :: rk' /\ w = v) \/ (exists r3, k' = (pre ++ oi :: rn') ++ r3 /\ has c r3 w).
+Proof.
+  intros Hne Ho Hn. rewrite has_opt_short. unfold branch2. split.
+  - intros (r & -> & Hh). apply branch_has in Hh; auto.
+    destruct Hh as [(r2 & -> & Hh)|(r2 & -> & Hh)]; apply has_leafn in Hh as (r3 & -> & Hh).
+    + apply has_value in Hh as [-> ->]. left. rewrite app_nil_r. auto.
+    + right. exists r3. split; auto. rewrite <- !app_assoc. reflexivity.
+  - intros [[-> ->]|(r3 & -> & Hh)].
+    + exists (ni :: rk'). split; auto. apply branch_has; auto. left. exists rk'. split; auto.
+      apply has_leafn. exists []. rewrite app_nil_r. split; auto. constructor.
+    + exists (oi :: rn' ++ r3). split; [rewrite <- !app_assoc; reflexivity|].
+      apply branch_has; auto. right. exists (rn' ++ r3). split; auto. apply has_leafn. eauto.
+Qed.
+
+Lemma diverge_ins_spec pre oi rn' ni rk' c fl v :
+  oi <> ni -> oi <= 16 -> ni <= 16 ->
+  ins_spec (Short (pre ++ oi :: rn') c fl)
+           (opt_short pre (branch2 oi ni (leafn rn' c) (leafn rk' (Value v)))) (pre ++ ni :: rk') v.
+Proof.
+  intros Hne Ho Hn k' w. rewrite diverge_has by auto. rewrite has_short. split.
+  - intros [[-> ->]|(r3 & -> & Hh)]; auto. right. split; eauto.
+    rewrite <- app_assoc. intros Heq. apply app_inv_head in Heq. inversion Heq. congruence.
+  - intros [[-> ->]|[_ Hh]]; auto.
 Qed.
 
 Lemma insert_spec (v : bytes) : v <> [] ->
@@ -285,16 +358,16 @@ Proof.
     + intros (r & -> & Hr). apply has_value in Hr as [-> ->]. rewrite app_nil_r. auto.
     + intros [[-> ->]|[_ []]]. exists []. rewrite app_nil_r. split; auto. constructor.
   - (* Leaf *)
-    rewrite insert_short_eq. cbv zeta.
     destruct (prefix_len_split (k0 :: kt) (p ++ [16])) as (pre & rk & rn & Ek & Enk & Hml & Hdiv).
-    rewrite <- Hml.
     assert (Hwnk : wfk (p ++ [16])) by (apply wfk_snoc; auto).
     destruct rn as [|oi rn'].
     + (* whole key of the leaf matches: same key *)
-      rewrite app_nil_r in Enk. subst pre. rewrite Nat.eqb_refl.
-      assert (rk = []) as -> by (eapply wfk_prefix_eq; eauto; rewrite <- Ek; auto).
-      rewrite app_nil_r in Ek. rewrite Ek. rewrite skipn_all.
-      destruct f as [|f]; [cbn in Hf; lia|]. rewrite insert_nil_eq. cbn [rbind fst snd].
+      rewrite app_nil_r in Enk. subst pre.
+      assert (rk = []) as -> by (apply (wfk_prefix_eq (p ++ [16]) rk); [auto | rewrite <- Ek; auto]).
+      rewrite Ek in Hf |- *. rewrite insert_short_match by (destruct p; discriminate).
+      rewrite app_nil_r in *.
+      destruct f as [|f]; [rewrite app_length in Hf; cbn in Hf; lia|]. rewrite insert_nil_eq.
+      cbn [rbind fst snd].
       destruct (beq v0 v) eqn:Eb; cbn [negb].
       * apply beq_eq in Eb. subst v0. exists false, (Short (p ++ [16]) (Value v) fl).
         split; auto. split; [constructor; auto|]. split; [discriminate|]. split; auto.
@@ -309,65 +382,32 @@ Proof.
            ++ exists []. rewrite app_nil_r. split; auto. constructor.
            ++ apply has_value in Hr as [-> ->]. rewrite app_nil_r in Hne. congruence.
     + (* diverge inside the leaf's key *)
-      assert (Hlen : length pre <> length (p ++ [16])).
-      { rewrite Enk, app_length. cbn. lia. }
-      apply Nat.eqb_neq in Hlen. rewrite Hlen.
       destruct rk as [|ni rk'].
       { exfalso. rewrite app_nil_r in Ek. subst pre.
         assert (oi :: rn' = []) by (apply (wfk_prefix_eq (k0 :: kt) (oi :: rn')); [exact Hk|rewrite <- Enk; auto]).
         discriminate. }
-      rewrite Enk at 1. rewrite Ek at 1. rewrite !nth_error_app_mid.
-      rewrite Enk at 1. rewrite Ek at 1 2. rewrite !skipn_app_mid, firstn_app_len.
-      assert (Hpre : nibs pre) by (eapply wfk_mid_nibs; rewrite <- Ek; eauto).
-      assert (Hwr : wfk (ni :: rk')) by (eapply wfk_app_inv; eauto; rewrite <- Ek; auto).
-      assert (Hwo : wfk (oi :: rn')) by (eapply wfk_app_inv; eauto; rewrite <- Enk; auto).
+      rewrite Ek in Hk |- *. rewrite Enk in Hwnk |- *.
+      assert (Hpre : nibs pre) by (apply (wfk_mid_nibs pre ni rk'); auto).
+      assert (Hd : oi <> ni) by (intros ->; apply Hdiv; auto).
+      assert (Hwr : wfk (ni :: rk')) by (apply (wfk_app_inv pre); auto).
+      assert (Hwo : wfk (oi :: rn')) by (apply (wfk_app_inv pre); auto).
       assert (Hni : ni <= 16) by (cbn in Hwr; lia).
       assert (Hoi : oi <= 16) by (cbn in Hwo; lia).
-      set (X := leafn rk' (Value v)). set (Y := leafn rn' (Value v0)).
-      assert (HX : child_ok ni X) by (apply child_ok_leaf; auto).
-      assert (HY : child_ok oi Y) by (apply child_ok_leaf; auto).
-      assert (Hbr : canon (Full (set_nth ni X (set_nth oi Y empty_children)) newflag))
-        by (apply branch_canon; auto).
-      eexists true, _. split.
-      { destruct (Nat.eqb (length pre) 0) eqn:E0; reflexivity. }
-      split.
-      { pose proof (canon_opt_short pre _ newflag newflag Hpre Hbr) as Hcc.
-        destruct (Nat.eqb (length pre) 0); exact Hcc. }
-      split; [destruct (Nat.eqb (length pre) 0); discriminate|].
-      split; [discriminate|]. split; [discriminate|].
-      intros k' w.
-      assert (Hopt : has (if Nat.eqb (length pre) 0
-                          then Full (set_nth ni X (set_nth oi Y empty_children)) newflag
-                          else Short pre (Full (set_nth ni X (set_nth oi Y empty_children)) newflag) newflag) k' w
-                     <-> exists r, k' = pre ++ r /\
-                                   ((exists r2, r = ni :: r2 /\ has X r2 w) \/
-                                    (exists r2, r = oi :: r2 /\ has Y r2 w))).
-      { rewrite has_opt_short. split; intros (r & Hr & Hh); exists r; split; auto;
-          apply (branch_has oi ni X Y newflag r w); auto. }
-      destruct (Nat.eqb (length pre) 0); rewrite Hopt; clear Hopt;
-        rewrite Ek, has_short, Enk; unfold X, Y;
-        (split;
-         [ intros (r & -> & [(r2 & -> & Hh)|(r2 & -> & Hh)]);
-           apply has_leafn in Hh as (r3 & -> & Hh); apply has_value in Hh as [-> ->];
-           [ left; rewrite app_nil_r; auto
-           | right; split;
-             [ intros Heq; apply app_inv_head in Heq; inversion Heq; congruence
-             | exists []; rewrite !app_nil_r; split; [|constructor]; rewrite <- app_assoc; reflexivity ] ]
-         | intros [[-> ->]|[Hne (r & -> & Hr)]];
-           [ exists (ni :: rk'); split; auto; left; exists rk'; split; auto;
-             apply has_leafn; exists []; rewrite app_nil_r; split; auto; constructor
-           | apply has_value in Hr as [-> ->]; rewrite app_nil_r;
-             exists (oi :: rn'); split; auto; right; exists rn'; split; auto;
-             apply has_leafn; exists []; rewrite app_nil_r; split; auto; constructor ] ]).
+      rewrite insert_short_diverge by auto.
+      assert (HX : child_ok ni (leafn rk' (Value v))) by (apply child_ok_leaf; auto).
+      assert (HY : child_ok oi (leafn rn' (Value v0))) by (apply child_ok_leaf; auto).
+      eexists true, _. split; [reflexivity|].
+      split; [apply canon_opt_short; auto; apply branch_canon; auto|].
+      split; [apply opt_short_ne|]. split; [discriminate|]. split; [discriminate|].
+      apply diverge_ins_spec; auto.
   - (* Ext *)
-    rewrite insert_short_eq. cbv zeta.
     destruct (prefix_len_split (k0 :: kt) nk) as (pre & rk & rn & Ek & Enk & Hml & Hdiv).
-    rewrite <- Hml.
     destruct rn as [|oi rn'].
-    + rewrite app_nil_r in Enk. subst pre. rewrite Nat.eqb_refl. rewrite Ek, skipn_app_len.
-      assert (Hr : wfk rk) by (eapply wfk_app_inv; eauto; rewrite <- Ek; auto).
+    + rewrite app_nil_r in Enk. subst pre. rewrite Ek in Hk, Hf |- *.
+      rewrite insert_short_match by auto.
+      assert (Hr : wfk rk) by (apply (wfk_app_inv nk); auto).
       destruct (IH (Full cs g) rk Hc Hr) as (b & nn & Hi & Hcn & Hne & Hb & Hfull & Hs).
-      { rewrite Ek, app_length in Hf. destruct nk; [congruence|]. cbn in Hf. lia. }
+      { rewrite app_length in Hf. destruct nk; [congruence|]. cbn in Hf. lia. }
       rewrite Hi. cbn [rbind fst snd].
       destruct (Hfull _ _ eq_refl) as (cs' & g' & ->).
       destruct b.
@@ -390,54 +430,23 @@ Proof.
         -- intros [[-> ->]|[Hne' (r & -> & Hh)]].
            ++ exists rk. split; auto. apply Hs. auto.
            ++ exists r. split; auto.
-    + assert (Hlen : length pre <> length nk).
-      { rewrite Enk, app_length. cbn. lia. }
-      apply Nat.eqb_neq in Hlen. rewrite Hlen.
-      assert (Hpre : nibs pre) by (rewrite Enk in Hn; apply nibs_app in Hn; tauto).
+    + assert (Hpre : nibs pre) by (rewrite Enk in Hn; apply nibs_app in Hn; tauto).
       assert (Hno : nibs (oi :: rn')) by (rewrite Enk in Hn; apply nibs_app in Hn; tauto).
       destruct rk as [|ni rk'].
       { exfalso. rewrite app_nil_r in Ek. subst pre.
         apply (nibs_not_wfk_prefix (k0 :: kt) (oi :: rn')); [rewrite <- Enk; exact Hn | exact Hk]. }
-      rewrite Enk at 1. rewrite Ek at 1. rewrite !nth_error_app_mid.
-      rewrite Enk at 1. rewrite Ek at 1 2. rewrite !skipn_app_mid, firstn_app_len.
-      assert (Hwr : wfk (ni :: rk')) by (eapply wfk_app_inv; eauto; rewrite <- Ek; auto).
+      rewrite Ek in Hk |- *. rewrite Enk.
+      assert (Hwr : wfk (ni :: rk')) by (apply (wfk_app_inv pre); auto).
       assert (Hni : ni <= 16) by (cbn in Hwr; lia).
       assert (Hoi : oi <= 16) by (inversion Hno; subst; lia).
-      set (X := leafn rk' (Value v)). set (Y := leafn rn' (Full cs g)).
-      assert (HX : child_ok ni X) by (apply child_ok_leaf; auto).
-      assert (HY : child_ok oi Y) by (apply child_ok_ext; auto).
-      assert (Hbr : canon (Full (set_nth ni X (set_nth oi Y empty_children)) newflag))
-        by (apply branch_canon; auto).
-      eexists true, _. split.
-      { destruct (Nat.eqb (length pre) 0) eqn:E0; reflexivity. }
-      split.
-      { pose proof (canon_opt_short pre _ newflag newflag Hpre Hbr) as Hcc.
-        destruct (Nat.eqb (length pre) 0); exact Hcc. }
-      split; [destruct (Nat.eqb (length pre) 0); discriminate|].
-      split; [discriminate|]. split; [discriminate|].
-      intros k' w.
-      assert (Hopt : has (if Nat.eqb (length pre) 0
-                          then Full (set_nth ni X (set_nth oi Y empty_children)) newflag
-                          else Short pre (Full (set_nth ni X (set_nth oi Y empty_children)) newflag) newflag) k' w
-                     <-> exists r, k' = pre ++ r /\
-                                   ((exists r2, r = ni :: r2 /\ has X r2 w) \/
-                                    (exists r2, r = oi :: r2 /\ has Y r2 w))).
-      { rewrite has_opt_short. split; intros (r & Hr & Hh); exists r; split; auto;
-          apply (branch_has oi ni X Y newflag r w); auto. }
-      destruct (Nat.eqb (length pre) 0); rewrite Hopt; clear Hopt;
-        rewrite Ek, has_short, Enk; unfold X, Y;
-        (split;
-         [ intros (r & -> & [(r2 & -> & Hh)|(r2 & -> & Hh)]);
-           apply has_leafn in Hh as (r3 & -> & Hh);
-           [ apply has_value in Hh as [-> ->]; left; rewrite app_nil_r; auto
-           | right; split;
-             [ intros Heq; apply app_inv_head in Heq; inversion Heq; congruence
-             | exists r3; split; auto; rewrite <- !app_assoc; reflexivity ] ]
-         | intros [[-> ->]|[Hne (r & -> & Hr)]];
-           [ exists (ni :: rk'); split; auto; left; exists rk'; split; auto;
-             apply has_leafn; exists []; rewrite app_nil_r; split; auto; constructor
-           | exists (oi :: rn' ++ r); split; [rewrite <- !app_assoc; reflexivity|];
-             right; exists (rn' ++ r); split; auto; apply has_leafn; eauto ] ]).
+      assert (Hd : oi <> ni) by (intros ->; apply Hdiv; auto).
+      rewrite insert_short_diverge by auto.
+      assert (HX : child_ok ni (leafn rk' (Value v))) by (apply child_ok_leaf; auto).
+      assert (HY : child_ok oi (leafn rn' (Full cs g))) by (apply child_ok_ext; auto).
+      eexists true, _. split; [reflexivity|].
+      split; [apply canon_opt_short; auto; apply branch_canon; auto|].
+      split; [apply opt_short_ne|]. split; [discriminate|]. split; [discriminate|].
+      apply diverge_ins_spec; auto.
   - (* Full *)
     rewrite insert_full_eq. cbn in Hk.
     destruct Hk as [[-> ->]|[Hi Hkt]].
